@@ -268,7 +268,9 @@ fn determine_target(
         } else {
             target
         };
-        if let Some(pos) = without_scheme.find('/') {
+        // The authority ends at the first '/' or, when the path is empty, at the '?' that
+        // starts the query (RFC 3986 section 3.2): "http://host?x=1" names host "host".
+        if let Some(pos) = without_scheme.find(['/', '?']) {
             host = without_scheme[..pos].to_string();
             path = without_scheme[pos..].to_string();
         } else {
